@@ -795,31 +795,33 @@ Definition site_fold (is_set : bool) (after : nat -> bool) (s1 s2 : st) : option
 Definition recv_mentions_any (r : recv) (ns : list nat) : bool :=
   existsb (fun n => Nat.eqb (recv_name r) n || existsb (mentions n) (recv_exprs r)) ns.
 
+(* the descent of this rule: through every `for` / `if` without else whose body is one such statement; the leaf
+   is the whole body of the innermost one *)
+Fixpoint down (s : st) {struct s} : list cx * list clause * list st :=
+  match s with
+  | SFor t it body [] =>
+      match body with
+      | [b] => match b with
+               | SFor _ _ _ [] | SIf _ _ [] => let '(ifs, cl, leaf) := down b in ([], (t, it, ifs) :: cl, leaf)
+               | _ => ([], [(t, it, [])], body)
+               end
+      | _ => ([], [(t, it, [])], body)
+      end
+  | SIf c body [] =>
+      match body with
+      | [b] => match b with
+               | SFor _ _ _ [] | SIf _ _ [] => let '(ifs, cl, leaf) := down b in (c :: ifs, cl, leaf)
+               | _ => ([c], [], body)
+               end
+      | _ => ([c], [], body)
+      end
+  | _ => ([], [], [s])
+  end.
+
 Definition site_nested (fresh : nat) (after : nat -> bool) (s : st) : option st :=
   match s with
   | SFor _ _ _ [] =>
-      (* the clauses; the leaf is the whole body of the innermost for / if *)
-      let '(_, cl, leaf) :=
-        (fix down (s : st) : list cx * list clause * list st :=
-           match s with
-           | SFor t it body [] =>
-               match body with
-               | [b] => match b with
-                        | SFor _ _ _ [] | SIf _ _ [] => let '(ifs, cl, leaf) := down b in ([], (t, it, ifs) :: cl, leaf)
-                        | _ => ([], [(t, it, [])], body)
-                        end
-               | _ => ([], [(t, it, [])], body)
-               end
-           | SIf c body [] =>
-               match body with
-               | [b] => match b with
-                        | SFor _ _ _ [] | SIf _ _ [] => let '(ifs, cl, leaf) := down b in (c :: ifs, cl, leaf)
-                        | _ => ([c], [], body)
-                        end
-               | _ => ([c], [], body)
-               end
-           | _ => ([], [], [s])
-           end) s in
+      let '(_, cl, leaf) := down s in
       let gens := map (gen_of false) cl in
       let go (bound : list nat) (r : recv) (e : cx) :=
         if dead_after after bound
